@@ -65,6 +65,7 @@ struct C03 : public Driver {
         SSCfg sc; auto allowed = featuresExcept({}); sc.on = pickFeatures(g, allowed, 3, 9);
         if (dc.manyNames) { sc.on.insert("num-nocount"); sc.on.insert("num-any"); }
         if (dc.bigNum) { sc.on.insert("bigfmt"); sc.on.insert("valnum"); }
+        { static const std::vector<std::string> langs = { "de", "fr", "en" }; static const std::vector<std::string> cases = { "", "upper-first", "lower-first" }; sc.sortLang = g.pick(langs); sc.sortCase = g.pick(cases); }
         sc.useImport = g.chance(1, 3); sc.useInclude = g.chance(1, 4); sc.docFn = g.chance(1, 3); sc.stripSpace = g.chance(1, 4);
         static const std::vector<std::string> encs = { "UTF-8", "UTF-8", "UTF-16", "ISO-8859-1", "US-ASCII", "windows-1252" };
         sc.encoding = g.pick(encs); sc.cdataElems = g.chance(1, 6);
@@ -289,6 +290,17 @@ struct C03 : public Driver {
                   XformOut fo = runTransform(env, rq, s);
                   if (!fo.ok() || fo.bytes != goodRef) res.violate("transformer-unusable", sigOp, "after " + r.name + " (status " + std::to_string(r.status) + ") the known-good transformation on the same transformer gives status " + std::to_string(fo.status) + " err=[" + fo.err.substr(0, 200) + "] output-equal=" + std::to_string(fo.bytes == goodRef));
                   tr.ev("follow " + std::to_string(fo.status) + " " + hex64(fnvStr(fo.bytes))); }
+                // ... and the same operation without its faults now gives what a fresh transformer gives (the stylesheet and
+                // document that were in flight when the fault hit are the ones most likely to meet left-over state)
+                if (destr && (o.str("op") == "transform" || o.str("op") == "param-expr")) {
+                    g_clock.reset(); Json plain = stripFaults(o, false); if (o.str("op") == "param-expr") { plain["expr"] = "'plain'"; plain["faulted"] = false; }
+                    OpRes dry2 = dry; if (o.str("op") == "param-expr") { XEnv e2; for (auto& kv : plan.at("resources").o) e2.fs.put(kv.first, kv.second.s); dry2 = doOp(e2, plan, plain, res, false); }
+                    OpRes again = doOp(env, plan, plain, res, false);
+                    if (again.status != dry2.status || again.threw != dry2.threw) res.violate("state-leak-after-fault", sigOp, "after " + r.name + " failed (status " + std::to_string(r.status) + "), the same operation without faults on the same transformer gives status " + std::to_string(again.status) + " [" + again.err.substr(0, 200) + "], a fresh transformer gives " + std::to_string(dry2.status));
+                    else if (again.out != dry2.out) { std::string d; std::string f = firstObsDiff(dry2.out, again.out, &d); res.violate("state-leak-after-fault", sigOp + ":" + f, "after " + r.name + " failed, the same operation without faults on the same transformer differs from a fresh transformer: " + d); }
+                    tr.ev("again " + std::to_string(again.status) + " " + hex64(fnvStr(again.out)));
+                    res.count("probe:same-op-after-fault");
+                }
             }
             removeScratch(env);
             env.destroyTransformer();
